@@ -8,6 +8,7 @@ import itertools
 import os
 import sys
 import time
+import types
 
 from harness.common import exc_name
 
@@ -247,7 +248,32 @@ KINDS_RUN = ("run", "map", "fc", "fr", "frc", "both", "frseq")
 # the wrapped test element (real Python object handed to the real FillRequest)
 
 class _E(object):
-    pass
+    """The test element.  Its methods are closures of make_el (functions are atomic for copy.deepcopy), so it says itself
+    how it is deep copied: an element built the same way, holding a deep copy of the state — independent of the one it
+    was copied from (`copies`: the elements copied from this one, for the harness to find the element of a deep-copied
+    adapter or sequence without looking into lena's objects)."""
+
+    def __deepcopy__(self, memo):
+        import copy
+        new = make_el(*self.mk[0], **self.mk[1])
+        memo[id(self)] = new
+        new.v = copy.deepcopy(self.v, memo)
+        new.obs.update(self.obs)        # in place: the closures of `new` hold this dict
+        self.copies.append(new)
+        return new
+
+
+_DISPATCH = {}
+
+
+def _dispatch(name):
+    """the function behind the bound method `name` of a test element: calls what make_el put under that name"""
+    if name not in _DISPATCH:
+        def call(self, *a):
+            return self.m[name](*a)
+        call.__name__ = name
+        _DISPATCH[name] = call
+    return _DISPATCH[name]
 
 
 def caps_of(kind, has_reset):
@@ -319,14 +345,19 @@ def make_el(kind, k, mut, has_reset, caps=None, stop=None, stores=False, kpar=Fa
     alias: the one result is the live state itself and reset empties it in place.
     request/compute/run are generator functions: their bodies run when they are iterated."""
     e = _E()
+    e.mk = ((kind, k, mut, has_reset), dict(caps=caps, stop=stop, stores=stores, kpar=kpar, names=names, readj=readj,
+                                            alias=alias, codef=codef, lazy=lazy))
+    e.copies = []
     e.v = _Live() if alias else []
     # what the element sees of its caller (the public-interface observation of the adapter's state, see _Watch):
     # att: calls of fill; since: fills accepted since request/compute was last called; made: results yielded by
     # request/compute (for the lazy variant: generator objects handed out)
-    e.obs = obs = {"att": 0, "since": 0, "made": 0}
+    # calls: every call of a method of the element (a generator method: when its body starts)
+    e.obs = obs = {"att": 0, "since": 0, "made": 0, "calls": 0}
 
     def fill(x):
         obs["att"] += 1
+        obs["calls"] += 1
         if stop is not None and x >= stop:
             if stores:
                 e.v.append(x)
@@ -352,6 +383,7 @@ def make_el(kind, k, mut, has_reset, caps=None, stop=None, stores=False, kpar=Fa
     def req():
         """request / compute as the adapter calls it (run of the element calls gen itself)"""
         obs["since"] = 0
+        obs["calls"] += 1
         if lazy:
             # the element of the generator-keeping reference adapter: ONE result, the generator object itself
             obs["made"] += 1
@@ -362,12 +394,14 @@ def make_el(kind, k, mut, has_reset, caps=None, stop=None, stores=False, kpar=Fa
         yield [-7]
 
     def reset():
+        obs["calls"] += 1
         if alias:
             del e.v[:]
         else:
             e.v = []
 
     def run(flow):
+        obs["calls"] += 1
         if kind == "map":
             for x in flow:
                 yield [x + 100]
@@ -388,26 +422,35 @@ def make_el(kind, k, mut, has_reset, caps=None, stop=None, stores=False, kpar=Fa
     def decoy(*a):
         raise AssertionError("a method with the default name was called although another name was given")
 
+    e.m = {}
+
+    def method(name, f):
+        # a bound method of the element (as the method of a class instance is): an object that keeps `el.run` / `el.fill`
+        # and is deep copied keeps the method of the COPIED element (copy.deepcopy rebinds bound methods; a plain
+        # function stored as an attribute would stay that of the original)
+        e.m[name] = f
+        setattr(e, name, types.MethodType(_dispatch(name), e))
+
     c = caps if caps is not None else caps_of(kind, has_reset)
     if c[0]:
-        e.run = run
+        method("run", run)
     if c[1]:
-        setattr(e, "put" if names else "fill", fill)
+        method("put" if names else "fill", fill)
     if c[2]:
-        setattr(e, "get" if names else "request", req)
+        method("get" if names else "request", req)
     if c[3]:
-        e.compute = other if c[2] else req
+        method("compute", other if c[2] else req)
     if c[4]:
-        setattr(e, "clear" if names else "reset", reset)
+        method("clear" if names else "reset", reset)
     if names:
         # `fill`/`request` with the default names exist, too, and must not be used; `reset` with the default name
         # exists only if the element is not meant to have one (so an adapter that ignores reset_name resets wrongly)
         if c[1]:
-            e.fill = decoy
+            method("fill", decoy)
         if c[2]:
-            e.request = decoy
+            method("request", decoy)
         if not c[4]:
-            e.reset = decoy
+            method("reset", decoy)
     return e
 
 
@@ -569,7 +612,7 @@ def make_adapter(case):
         args.append(el)
         if post:
             args.append((lambda r: r + [99]) if post == 1 else _PostMulti())
-        return lena.core.FillRequestSeq(*args, **_kw(case))
+        return _built(lena.core.FillRequestSeq(*args, **_kw(case)), el)
     el = make_el(kind, case["k"], case["mut"], case["hr"], stop=case.get("stop"), stores=bool(case.get("stores")),
                  kpar=bool(case.get("kpar")), names=bool(case.get("names")), readj=case.get("j"),
                  alias=bool(case.get("alias")), codef=_code_of if case.get("vals") is not None else None,
@@ -1048,6 +1091,31 @@ def _run_impl(case):
         return {"e": exc_name(e), "phase": "second adapter"}
     if op == "seqops":
         return _run_seqops(case, fr)
+    # "cp": the object that is driven is a deep copy (copy.deepcopy, as lena's SplitIntoBins / MapBins copy the
+    # sequences they are given) of the object built — "fresh": copied before anything was called, "mid": a run case
+    # with a second flow: copied after the first run.  A copy is an adapter / sequence in the state of the original:
+    # the model and the reference see no difference.  `orig`: (the original, its element, the element's call count at
+    # the moment of the copy)
+    cp, orig = case.get("cp") if op in ("run", "runp", "ops") else None, None
+
+    def deep_copy(obj):
+        import copy
+        oel = _BUILT[id(obj)][1]
+        c = copy.deepcopy(obj)
+        _built(c, oel.copies[-1] if oel.copies else oel)
+        return c, (obj, oel, oel.obs["calls"])
+
+    def cp_result(xs):
+        """what the original's element was called while the copy was driven; then the run of the original"""
+        obj, oel, base = orig
+        return {"shared": _BUILT[id(fr)][1] is oel, "touched": oel.obs["calls"] - base,
+                "ro": [enc(case, r) for r in obj.run(iter(xs))]}
+
+    if cp == "fresh":
+        try:
+            fr, orig = deep_copy(fr)
+        except Exception as e:
+            return {"e": exc_name(e), "phase": "deepcopy"}
     if op in ("run", "runp"):
         try:
             # "rt": for every result, how many values of the flow had been taken when it was yielded
@@ -1057,8 +1125,12 @@ def _run_impl(case):
                 rt.append(src.taken)
             res = {"r": rs, "rt": rt, "taken": src.taken}
             if flow2 is not None:
+                if cp == "mid":
+                    fr, orig = deep_copy(fr)
                 # the same adapter (and element object) runs a second flow
                 res["r2"] = [enc(case, r) for r in fr.run(iter(flow2))]
+            if orig is not None:
+                res["cp"] = cp_result(py_flow(case, codes2 if cp == "mid" else codes))
             return res
         except Exception as e:
             return {"e": exc_name(e), "phase": "run"}
@@ -1089,6 +1161,8 @@ def _run_impl(case):
             if flow2 is not None:
                 # the adapter that was driven by fill/request now runs a flow
                 res["r2"] = [enc(case, r) for r in fr.run(iter(flow2))]
+            if orig is not None:
+                res["cp"] = cp_result(py_flow(case, codes))
         except Exception as e:
             res["run"] = {"e": exc_name(e)}
         return res
@@ -1462,6 +1536,10 @@ def oracle(case, res):
     n, L = case["bufsize"], case["n"]
     flow = flow_codes(case)
     flow2 = flow_codes(case, L, case["n2"]) if case.get("n2") is not None else None
+    if case.get("cp") and op in ("run", "runp", "ops"):
+        bad = _oracle_copy(case, res, flow, flow2)
+        if bad:
+            return bad
     if op in ("run", "runp"):
         ref = ref_run(case, flow)
         if res["r"] != ref:
@@ -1545,6 +1623,32 @@ def oracle(case, res):
                 return _accounted(case, res["r"], flow, closed=True, pending=None)
         return None
     raise ValueError(op)
+
+
+def _oracle_copy(case, res, flow, flow2):
+    """The object that was driven is a deep copy of the object built (its results are judged by the sentences of the
+    property like those of any adapter: the caller goes on with them).  Here: the copy processes the flow with ITS
+    wrapped element — the element of the object it was copied from is not called; and the original, run afterwards, yields
+    what its own element yields for the consecutive blocks: the block reference of a fresh object ("fresh"), what the copy
+    — in the same state when it was made — yielded for the same flow ("mid")."""
+    c = res.get("cp")
+    if c is None:
+        return "the harness did not record the run of the original after its deep copy was driven"
+    what = "a deep copy" if case["cp"] == "fresh" else f"a deep copy made after a run on {len(flow)} values"
+    if c["shared"]:
+        return f"{what} of the adapter/sequence wraps the element object of the original (not a copy of it)"
+    if c["touched"]:
+        return (f"{what} was driven and {c['touched']} calls went to the wrapped element of the ORIGINAL: the copy does not "
+                f"process the flow with its own element")
+    if case["cp"] == "fresh":
+        ref = ref_run(case, flow)
+        if c["ro"] != ref:
+            return (f"the original, untouched while its deep copy was driven, then runs {flow} and yields {_Short(c['ro'])}; "
+                    f"block-by-block reference {_Short(ref)}")
+    elif "r2" in res and c["ro"] != res["r2"]:
+        return (f"original and deep copy made after the first run, each run on {flow2}: the copy yields {_Short(res['r2'])}, "
+                f"the original {_Short(c['ro'])} — the blocks of the same values from the same state")
+    return None
 
 
 def ref_history(case):
@@ -2033,7 +2137,48 @@ def _dimension_cases(rng, count):
             c["alias"] = True
         if rng.random() < 0.3:
             c["n2"] = rng.randint(0, 7)
+        if op in ("run", "ops") and rng.random() < 0.2:
+            # the object driven is a deep copy of the object built (made before the first call / between two runs)
+            c["cp"] = "mid" if op == "run" and c.get("n2") is not None and rng.random() < 0.6 else "fresh"
         yield c
+
+
+def _copy_cases(rng, thorough):
+    """deep copies (copy.deepcopy) of adapters and sequences: every wrapped kind (FillRequestSeq among them) x reset x
+    bufsize 1..3 x flags x flows 0..7; copied fresh (one run, two runs of the copy) and after a first run of the original;
+    fill/request histories (every schedule of flows 0..4) on a fresh copy.  quick: a seeded sample of this scope."""
+    keep = 1.0 if thorough else 0.16
+    for kind in KINDS_RUN:
+        for hr, reset in _reset_opts(kind):
+            for n in (1, 2, 3):
+                for yor in (False, True):
+                    for buf in _bufs(yor):
+                        for L in (0, 1, 2, 3, 5, 7):
+                            for mut in ((False,) if kind == "map" else (False, True)):
+                                for cp, n2 in (("fresh", None), ("fresh", 3), ("mid", 4)):
+                                    if rng.random() >= keep:
+                                        continue
+                                    c = _base(kind, 1, mut, hr, n, buf, reset, yor)
+                                    c.update(op="run", n=L, cp=cp)
+                                    if n2 is not None:
+                                        c["n2"] = n2
+                                    if kind == "frseq":
+                                        c.update(pre=rng.choice((0, 1, 2)), post=rng.choice((0, 1, 2)))
+                                    yield c
+    keep = 1.0 if thorough else 0.3
+    for kind in KINDS_FILL:
+        for hr, reset in _reset_opts(kind):
+            for n in (1, 2, 3):
+                for buf in ("bi", "bo"):
+                    for L in range(5):
+                        for mask in range(1 << L):
+                            if rng.random() >= keep:
+                                continue
+                            c = _base(kind, 1, False, hr, n, buf, reset, False)
+                            c.update(op="ops", n=L, mask=mask, cp="fresh")
+                            if L % 2:
+                                c["n2"] = 3
+                            yield c
 
 
 def gen_cases(ctx):
@@ -2076,6 +2221,9 @@ def gen_cases(ctx):
     for c in _long_cases(rng, 600 if thorough else 300):
         yield c
     for c in _very_long_cases(rng, 45 if thorough else 15):
+        yield c
+    # --- deep copies of adapters and sequences -------------------------------------------------------
+    for c in _copy_cases(rng, thorough):
         yield c
     # --- Split: other branches around the branch under test -----------------------------------------
     for desc in ("src", "seq", "fc", "fr2:2", "frstop:0", "frstop:3", "fcstop:0", "fcstop:3"):
